@@ -147,3 +147,77 @@ class AbsInt:
         if start is None:
             self._summ[key] = out
         return out
+
+
+def enumerate_paths(ai: AbsInt, f: FuncInfo, init: Hashable, limit: int = 2_000_000, _depth: int = 0):
+    """Thorough tier: explicit enumeration of every acyclic path (in the product CFG x state, callees inlined) from the
+    entry of f; an independent traversal strategy cross-checking the worklist fixpoint of AbsInt.run.
+    Returns (list of (exit key, end state), number of paths, truncated?)."""
+    g = ai.an.cfg(f)
+    ends: Dict[Tuple[ExitKey, Hashable], int] = {}
+    count = [0]
+    truncated = [False]
+    callee_cache: Dict[Tuple[str, Hashable], List[Tuple[ExitKey, Hashable, int]]] = {}
+
+    def callee_paths(t: FuncInfo, cst: Hashable, depth: int) -> List[Tuple[ExitKey, Hashable, int]]:
+        key = (t.qual, cst)
+        if key not in callee_cache:
+            sub_ends, _, tr = _enum(t, cst, depth + 1)
+            if tr:
+                truncated[0] = True
+            callee_cache[key] = [(k, s, c) for (k, s), c in sub_ends.items()]
+        return callee_cache[key]
+
+    def _enum(fn: FuncInfo, st0: Hashable, depth: int):
+        gg = ai.an.cfg(fn)
+        local_ends: Dict[Tuple[ExitKey, Hashable], int] = {}
+        n_paths = 0
+        tr = False
+        # iterative DFS with an explicit path-visited set
+        stack: List[Tuple[Node, Hashable, int, frozenset]] = [(gg.entry, st0, 1, frozenset())]
+        while stack:
+            n, st, mult, seen = stack.pop()
+            if n_paths > limit:
+                tr = True
+                break
+            if n is gg.exit:
+                local_ends[(RET, st)] = local_ends.get((RET, st), 0) + mult
+                n_paths += mult
+                continue
+            if n.op == "raise_exit":
+                k = (n.kind, n.tok)
+                local_ends[(k, st)] = local_ends.get((k, st), 0) + mult
+                n_paths += mult
+                continue
+            if (n.id, st) in seen:
+                continue  # acyclic paths only
+            seen2 = seen | {(n.id, st)}
+            cal = runs_callee(n)
+            outs: List[Tuple[Optional[ExitKey], Hashable, int]] = []
+            if cal is not None and ai.enter is not None and depth < ai.max_depth:
+                ok = True
+                tmp: List[Tuple[Optional[ExitKey], Hashable, int]] = []
+                for t in cal.targets:
+                    cst = ai.enter(ai, n, t, st)
+                    if cst is None:
+                        ok = False
+                        break
+                    for k, s2, c in callee_paths(t, cst, depth):
+                        tmp.append((k, ai.leave(ai, n, t, st, s2) if ai.leave else s2, c))
+                outs = tmp if ok else [(None, st, 1)]
+            else:
+                outs = [(None, st, 1)]
+            for s, lab in n.succ:
+                if ai.ef is not None and not ai.ef(n, s, lab):
+                    continue
+                for k, s_in, c in outs:
+                    if k is not None:
+                        ck = RET if lab[0] in NORMAL_KINDS else lab
+                        if k != ck:
+                            continue
+                    for s_out in ai.transfer(ai, n, lab, s_in):
+                        stack.append((s, s_out, mult * c, seen2))
+        return local_ends, n_paths, tr
+
+    ends, total, tr = _enum(f, init, _depth)
+    return ends, total, (tr or truncated[0])
